@@ -77,6 +77,8 @@ class Exp(object):
         self.empty_map_delta = set()
         self.optional_statement = False
         self.attr_of_field = {}
+        self.where_static_only = None   # WHERE to expect instead when the rendered statement touches static columns only
+        self.static_fields = set()
         self.note = ""
 
 
@@ -221,7 +223,13 @@ class Matcher(object):
         if st.table != exp.table:
             problems.append(("wrong-table", "statement is on %r, the model's table is %r" % (st.table, exp.table)))
         if st.kind != "insert":
-            self.compare_rels(st.where, exp.where, [], params, used, problems, "where")
+            want_where = exp.where
+            if exp.where_static_only is not None:
+                touched = [a.column for a in st.assignments] if st.kind == "update" else [x[1] for x in getattr(st, "selections", [])]
+                if touched and all(t in exp.static_fields for t in touched) and len(st.where) == len(exp.where_static_only):
+                    want_where = exp.where_static_only     # either form is right for static cells (the full key when other, non-static
+                    #                                         columns changed in the same save without needing a SET part)
+            self.compare_rels(st.where, want_where, [], params, used, problems, "where")
         if st.kind == "select":
             self.select_parts(st, exp, problems)
             return problems
@@ -316,9 +324,14 @@ class Matcher(object):
             res = apply_ops(ctype, prev, ops)
             self.ctx.count("container_deltas_judged_by_effect")
             if res == "INVALID":
-                problems.append(("container-delta-does-not-produce-value", "%s %s: operations %r are not valid for the column" % (ctype, f, ops)))
+                problems.append(("container-delta-does-not-produce-value", "%s %s: operations %r (or the values bound to them) are not valid for the column" % (ctype, f, ops)))
                 continue
-            want = value if value is not None else prev
+            if value is None:
+                # the column is being nulled (the DELETE statement does it): operations here may only empty it or leave it alone
+                if res is not None and len(res) and vkey(res) != vkey(prev if prev is not None else empty_of(ctype)):
+                    problems.append(("container-delta-does-not-produce-value", "%s %s is nulled, but the rendered operations %r give %r" % (ctype, f, ops, res)))
+                continue
+            want = value
             if ctype == "map":
                 # removals travel in a separate DELETE statement: here only the puts are judged
                 want = dict((k, v) for k, v in (value or {}).items())
@@ -359,7 +372,15 @@ def empty_of(ctype):
 
 
 def apply_ops(ctype, prev, ops):
-    """Effect of rendered SET operations (kind, field, key, value) on the previous python value (CQL collection semantics)."""
+    """Effect of rendered SET operations (kind, field, key, value) on the previous python value (CQL collection semantics);
+    "INVALID" when an operation or the shape of its bound value does not fit the column."""
+    try:
+        return _apply_ops(ctype, prev, ops)
+    except (TypeError, ValueError, AttributeError, KeyError):
+        return "INVALID"
+
+
+def _apply_ops(ctype, prev, ops):
     cur = None if prev is None else (set(prev) if ctype == "set" else list(prev) if ctype == "list" else dict(prev))
     for kind, _f, key, val in ops:
         if kind == "set":
@@ -941,10 +962,107 @@ class Driver(object):
         inst.delete()
         return [dele]
 
+    def case_instance_update(self, sp, batch=None):
+        """a loaded instance (built by the mapper's own result construction) whose columns are re-assigned - lists as new + previous,
+        previous + new, new + previous + new, shrunk, rewritten; sets / maps partially changed; scalars; None - then save() / update()"""
+        rng = self.rng
+        row, cur = {}, {}
+        for c in sp.cols:
+            if c.role in ("pk", "ck"):
+                v = gen_value(rng, c)
+            elif c.container:
+                v = gen_value(rng, c, allow_empty=rng.random() < 0.2)
+            else:
+                v = gen_value(rng, c) if rng.random() < 0.8 else None
+            row[c.field] = v
+            cur[c.attr] = v
+        inst = sp.model._construct_instance(row)
+        upd, dele = Exp("update", sp.table), Exp("delete", sp.table)
+        full = [(("col", c.field), "=", c.col.to_database(cur[c.attr])) for c in sp.pk + sp.ck]
+        part = [(("col", c.field), "=", c.col.to_database(cur[c.attr])) for c in sp.pk]
+        for e in (upd, dele):
+            e.where, e.where_static_only = list(full), list(part)
+            e.static_fields = set(c.field for c in sp.cols if c.role == "static")
+        changes = {}
+        cands = list(sp.data)
+        rng.shuffle(cands)
+        lists = [c for c in cands if c.container == "list"]
+        chosen = (lists[:1] if lists and rng.random() < 0.7 else []) + cands[:rng.randint(1, min(4, len(cands)))]
+        for c in chosen:
+            if c.attr in changes:
+                continue
+            old = cur[c.attr]
+            todb = c.col.to_database
+            fresh = lambda: gen_value(rng, c, allow_empty=False)
+            if rng.random() < 0.12:
+                new = None
+            elif not c.container:
+                new = gen_value(rng, c)
+                if vkey(new) == vkey(old) or (c.kind == "bool" and new == old):
+                    continue
+            elif c.container == "list":
+                r = rng.random()
+                new = (fresh() + old if r < 0.3 else old + fresh() if r < 0.5 else fresh() + old + fresh() if r < 0.7 else
+                       old[:-1] if (r < 0.8 and old) else fresh() if r < 0.9 else [])
+            elif c.container == "set":
+                new = set(old)
+                for _ in range(rng.randint(1, 2)):
+                    if new and rng.random() < 0.5:
+                        new.discard(rng.choice(sorted(new, key=repr)))
+                    else:
+                        new |= fresh()
+                if rng.random() < 0.1:
+                    new = set()
+            else:
+                new = derive(rng, c, old) if rng.random() < 0.6 else fresh()
+                if rng.random() < 0.5:
+                    new.update(fresh())
+                if rng.random() < 0.1:
+                    new = {}
+            if c.container and new is not None and vkey(new) == vkey(old):
+                continue
+            changes[c.attr] = new
+            if new is None or (c.container and not new):
+                if old is None or (c.container and not old):
+                    if new is None and old is None:
+                        del changes[c.attr]
+                        continue
+                dele.del_fields.append(("col", c.field))
+                if c.container in ("list", "set") and new is not None:
+                    upd.semantic.append((c.field, c.container, todb(old) if old else None, None))
+            elif not c.container:
+                upd.assigns.append(("set", c.field, None, todb(new)))
+            else:
+                upd.semantic.append((c.field, c.container, todb(old) if old else None, todb(new)))
+                if c.container == "map":
+                    for k in sorted((k for k in (old or {}) if k not in new), key=repr):
+                        dele.del_fields.append(("elem", c.field, c.col.key_col.to_database(k)))
+        if not changes:
+            return []
+        target = inst.batch(batch)
+        items = list(changes.items())
+        rng.shuffle(items)
+        if rng.random() < 0.35:
+            target.update(**dict(items))
+        else:
+            for a, v in items:
+                setattr(inst, a, v)
+            if rng.random() < 0.5:
+                target.save()
+            else:
+                target.update()
+        upd.optional_statement = not upd.assigns and all(not ops_expected(x) for x in upd.semantic)
+        exps = []
+        if upd.assigns or upd.semantic:
+            exps.append(upd)
+        if dele.del_fields:
+            exps.append(dele)
+        return exps
+
     def run_api_case(self, sp, kind):
         n0 = len(self.seen)
         fn = {"create": self.case_create, "qs_update": self.case_qs_update, "qs_delete": self.case_qs_delete,
-              "inst_delete": self.case_instance_delete}[kind]
+              "inst_delete": self.case_instance_delete, "inst_update": self.case_instance_update}[kind]
         exps = fn(sp)
         got = self.seen[n0:]
         return self.pair(got, exps), kind
@@ -978,9 +1096,9 @@ class Driver(object):
         exps = []
         for _ in range(rng.randint(1, 6)):
             sp = rng.choice(sp_pool)
-            kind = rng.choice(["create", "qs_update", "qs_update", "qs_delete", "inst_delete"])
+            kind = rng.choice(["create", "qs_update", "qs_update", "qs_delete", "inst_delete", "inst_update", "inst_update"])
             fn = {"create": self.case_create, "qs_update": self.case_qs_update, "qs_delete": self.case_qs_delete,
-                  "inst_delete": self.case_instance_delete}[kind]
+                  "inst_delete": self.case_instance_delete, "inst_update": self.case_instance_update}[kind]
             exps += fn(sp, batch=b)
         if len(self.seen) != n0:
             return [(self.seen[n0][0], self.seen[n0][1], None)], "batch"      # something was executed outside the batch
@@ -1168,6 +1286,17 @@ class Driver(object):
         return [(str(st), st.get_context(), [exp])], "direct-" + kind
 
 
+def ops_expected(sem):
+    """does a (field, ctype, previous, value) entry need rendered operations in the UPDATE?  (a map whose only change is removed keys,
+    or a column that is merely nulled, is served by the DELETE statement)"""
+    f, ctype, prev, value = sem
+    if value is None:
+        return False
+    if ctype == "map":
+        return any(k not in (prev or {}) or vkey((prev or {})[k]) != vkey(v) for k, v in value.items())
+    return True
+
+
 def derive(rng, cs, value):
     """a 'previous' value related to ``value`` (so that partial updates are exercised)"""
     if cs.container == "set":
@@ -1250,20 +1379,41 @@ def judge(ctx, M, P, text, params, exps, kind, witness):
             want = exps["statements"]
             subs = st.statements
             if len(subs) != len(want):
-                want2 = [e for e in want if not getattr(e, "optional_statement", False)]
-                if len(subs) == len(want2):
-                    want = want2
+                # statements that may legitimately be absent: align in order on (kind, table), dropping optional ones as needed
+                def align(wi, si):
+                    if wi == len(want):
+                        return [] if si == len(subs) else None
+                    e = want[wi]
+                    if getattr(e, "optional_statement", False):
+                        rest = align(wi + 1, si)
+                        if rest is not None:
+                            return rest
+                    if si < len(subs) and subs[si].kind == e.kind and subs[si].table == e.table:
+                        rest = align(wi + 1, si + 1)
+                        if rest is not None:
+                            return [e] + rest
+                    return None
+                aligned = align(0, 0)
+                if aligned is not None:
+                    want = aligned
             if len(subs) != len(want):
-                problems.append(("batch-statement-count-differs", "the batch renders %d statements, %d were requested" % (len(subs), len(want))))
+                problems.append(("batch-statement-count-differs", "the batch renders %d statements, %d were requested: %s" % (
+                    len(subs), len(want), "; ".join("%s %s set=%r sem=%r del=%r opt=%s" % (e.kind, e.table[1], e.assigns, e.semantic, e.del_fields, e.optional_statement) for e in want))))
             else:
                 for sub, e in zip(subs, want):
-                    problems += M.statement(sub, params, e, used)
+                    try:
+                        problems += M.statement(sub, params, e, used)
+                    except Exception as ex:
+                        problems.append(("statement-and-context-cannot-be-interpreted", "comparing a batched statement with its context raised %s: %s" % (type(ex).__name__, ex)))
                 ctx.count("batched_statements_judged", len(subs))
     else:
         if st.kind == "batch":
             problems.append(("wrong-statement-kind", "rendered a batch"))
         else:
-            problems += M.statement(st, params, exps[0], used)
+            try:
+                problems += M.statement(st, params, exps[0], used)
+            except Exception as e:       # the statement text and its context cannot be read together: that is the finding, not a harness error
+                problems.append(("statement-and-context-cannot-be-interpreted", "comparing the rendered statement with its context raised %s: %s" % (type(e).__name__, e)))
     seen = set()
     for slug, msg in problems:
         if slug in seen:
@@ -1317,7 +1467,8 @@ def run(ctx):
             pool = pool[-3:]
             ctx.count("models")
             for _ in range(rng.randint(8, 20)):
-                kind = rng.choice(["select", "select", "select", "create", "qs_update", "qs_update", "qs_delete", "inst_delete", "direct", "direct", "batch"])
+                kind = rng.choice(["select", "select", "select", "create", "qs_update", "qs_update", "qs_delete", "inst_delete", "inst_update", "inst_update",
+                                   "direct", "direct", "batch"])
                 done += 1
                 try:
                     if kind == "select":
@@ -1347,4 +1498,4 @@ def run(ctx):
     ctx.floor_counters = {"statements_judged": 8000, "placeholder_context_bijections": 6000, "where_parts_equal_to_request": 6000,
                           "set_parts_equal_to_request": 1500, "if_parts_equal_to_request": 1500, "clause_values_compared": 20000,
                           "batched_statements_judged": 1500, "container_deltas_judged_by_effect": 300, "cases:select": 1500,
-                          "statements_intercepted_at_session_execute": 3000, "delete_selections_equal_to_request": 1000}
+                          "statements_intercepted_at_session_execute": 3000, "delete_selections_equal_to_request": 1000, "cases:inst_update": 800}
